@@ -302,6 +302,49 @@ def activate_llc(role, tlvs, agf):
     return llc
 
 
+# ------------------------------------------------------------------ the application's view of the stack
+class Api(object):
+    """socket calls either on the controller (llc.sendto(tco, ..)) or through the public wrapper objects
+    nfc.llcp.Socket (sock.sendto(..)); the scripts and the abstraction work on the underlying tco objects"""
+    NAMES = ('bind', 'connect', 'listen', 'send', 'sendto', 'recv', 'recvfrom', 'setsockopt', 'getsockopt', 'close',
+             'getsockname', 'getpeername')
+
+    def __init__(self, llc, wrap):
+        import nfc.llcp.socket
+        self.llc, self.wrap, self.w = llc, wrap, {}
+        self.Socket = nfc.llcp.socket.Socket
+        for n in self.NAMES:
+            setattr(self, n, self._method(n))
+
+    def wrapper(self, tco):
+        if id(tco) not in self.w:
+            sock = self.Socket(self.llc, None)
+            sock._tco = tco
+            self.w[id(tco)] = sock
+        return self.w[id(tco)]
+
+    def _method(self, name):
+        def call(tco, *a):
+            if self.wrap:
+                return getattr(self.wrapper(tco), name)(*a)
+            return getattr(self.llc, name)(tco, *a)
+        return call
+
+    def socket(self, sock_type):
+        if not self.wrap:
+            return self.llc.socket(sock_type)
+        sock = self.Socket(self.llc, sock_type)
+        self.w[id(sock._tco)] = sock
+        return sock._tco
+
+    def accept(self, tco):
+        if not self.wrap:
+            return self.llc.accept(tco)
+        sock = self.wrapper(tco).accept()
+        self.w[id(sock._tco)] = sock
+        return sock._tco
+
+
 # ------------------------------------------------------------------ script interpreter (sender side)
 class Sender(object):
     """executes a JSON-serialisable script of socket-API operations on a real controller"""
@@ -326,12 +369,15 @@ class Sender(object):
         self.icv = sc.get('icv')
         if self.icv is not None:
             self.llc.sec = TestCipher(self.icv)      # collect() and dispatch() now run their encrypted branches
+        self.io = Api(self.llc, bool(sc.get('wrap')))
         self.socks = {}
+        self.handed = {}         # key -> bytearrays handed over with send()/sendto() (the application still owns them)
         self.conn_miu = {}       # (dsap=peer, ssap=addr) -> MIU announced by the peer for that connection
         self.raw_used = False
         self.conn_learnt = []    # (how, MIUX value, socket send_miu, true limit)
         self.sendlog = []        # (model line, expected result)
         self.arglog = []         # (argument kind, outcome, errno)
+        self.optlog = []         # (set/get, option, value, outcome, tco)
         self.threads = []
 
     def api(self, fn, *a):
@@ -348,21 +394,21 @@ class Sender(object):
     def _bind(self, s, spec):
         if isinstance(spec, str):
             spec = spec.encode('latin')
-        return self.api(self.llc.bind, s, spec)[0] == 'ok'
+        return self.api(self.io.bind, s, spec)[0] == 'ok'
 
     def op_ldl(self, key, spec):
-        s = self.llc.socket(nfc.llcp.LOGICAL_DATA_LINK)
+        s = self.io.socket(nfc.llcp.LOGICAL_DATA_LINK)
         if self._bind(s, spec):
             self.socks[key] = s
 
     def op_raw(self, key, addr):
-        s = self.llc.socket(L.RAW_ACCESS_POINT)
+        s = self.io.socket(L.RAW_ACCESS_POINT)
         if self._bind(s, addr):
             self.socks[key] = s
 
     def op_ldlconnect(self, key, dest):
         if key in self.socks:
-            self.api(self.llc.connect, self.socks[key], dest)
+            self.api(self.io.connect, self.socks[key], dest)
 
     def op_sendto(self, key, n, dest, fill):
         s = self.socks.get(key)
@@ -370,7 +416,7 @@ class Sender(object):
             return
         msg = payload(n, fill)
         before = a_sock(s)
-        r, v = self.api(self.llc.sendto, s, msg, dest, DONTWAIT)
+        r, v = self.api(self.io.sendto, s, msg, dest, DONTWAIT)
         exp = 'ok ' + a_sock(s) if r == 'ok' else 'err LlcpError:%d' % v
         self.sendlog.append(('sendto %d %d %s %s' % (self.miu, dest, hexs(msg), before), exp, n, r, self.true_miu))
 
@@ -387,9 +433,9 @@ class Sender(object):
         dlc = isinstance(s, T.DataLinkConnection)
         try:
             if dlc:
-                self.llc.send(s, msg, DONTWAIT)
+                self.io.send(s, msg, DONTWAIT)
             else:
-                self.llc.sendto(s, msg, dest, DONTWAIT)
+                self.io.sendto(s, msg, dest, DONTWAIT)
             r, v = 'ok', None
         except nfc.llcp.Error as e:
             r, v = 'err', e.errno
@@ -409,17 +455,72 @@ class Sender(object):
         elif r == 'ok':
             self.sendlog.append((None, None, 10 ** 9, r, lim))       # accepted something that is not octets at all
 
+    def op_send_buf(self, key, n, dest, fill):
+        """send()/sendto() of a bytearray the application keeps (and may change afterwards, op_mutate)"""
+        s = self.socks.get(key)
+        if s is None:
+            return
+        buf = bytearray(payload(n, fill))
+        octets = bytes(buf)
+        before = a_sock(s)
+        dlc = isinstance(s, T.DataLinkConnection)
+        if dlc:
+            r, v = self.api(self.io.send, s, buf, DONTWAIT)
+            line = 'send %s %s' % (hexs(octets), before)
+            lim = min(self.true_miu, self.conn_miu.get((s.peer, s.addr), 0))
+        else:
+            r, v = self.api(self.io.sendto, s, buf, dest, DONTWAIT)
+            line = 'sendto %d %d %s %s' % (self.miu, dest, hexs(octets), before)
+            lim = self.true_miu
+        exp = 'ok ' + a_sock(s) if r == 'ok' else 'err LlcpError:%d' % v
+        self.sendlog.append((line, exp, n, r, lim))
+        if r == 'ok':
+            self.handed.setdefault(key, []).append(buf)
+
+    def op_mutate(self, key, how, k):
+        """the application reuses the buffers it has sent (MSG_DONTWAIT returned, the data is handed over)"""
+        for buf in self.handed.get(key, []):
+            if how == 'extend':
+                buf.extend(payload(k, 0x55))
+            elif how == 'truncate':
+                del buf[k:]
+            else:
+                for i in range(len(buf)):
+                    buf[i] = (k + i) & 255
+
+    def op_setopt(self, key, option, value):
+        """setsockopt with any option number / value; ValueError, NotImplementedError, TypeError and llcp.Error are
+        the refusals the API documents or raises on purpose"""
+        s = self.socks.get(key)
+        if s is None:
+            return
+        try:
+            r = ('ok', self.io.setsockopt(s, option, value))
+        except (nfc.llcp.Error, ValueError, NotImplementedError, TypeError) as e:
+            r = (type(e).__name__, None)
+        self.optlog.append(('set', option, value, r[0], s))
+
+    def op_getopt(self, key, option):
+        s = self.socks.get(key)
+        if s is None:
+            return
+        try:
+            r = ('ok', self.io.getsockopt(s, option))
+        except (nfc.llcp.Error, ValueError, NotImplementedError, TypeError) as e:
+            r = (type(e).__name__, None)
+        self.optlog.append(('get', option, None, r[0], s))
+
     def op_rawsend(self, key, n, dest, fill):
         s = self.socks.get(key)
         if s is None:
             return
         self.raw_used = True
-        self.llc.sendto(s, P.UnnumberedInformation(dest, s.addr, payload(n, fill)), dest, DONTWAIT)
+        self.io.sendto(s, P.UnnumberedInformation(dest, s.addr, payload(n, fill)), dest, DONTWAIT)
 
     def op_dlc(self, key, addr, peer, annc, swin, rwin):
         """data link connection brought to ESTABLISHED as connect() does on reception of CC(miu=annc, rw=swin)"""
-        s = self.llc.socket(nfc.llcp.DATA_LINK_CONNECTION)
-        self.llc.setsockopt(s, nfc.llcp.SO_RCVBUF, rwin)
+        s = self.io.socket(nfc.llcp.DATA_LINK_CONNECTION)
+        self.io.setsockopt(s, nfc.llcp.SO_RCVBUF, rwin)
         if not self._bind(s, addr):
             return
         s.peer = peer
@@ -433,12 +534,12 @@ class Sender(object):
         self.conn_miu[(peer, s.addr)] = annc
 
     def op_listen(self, key, spec, rwin, rmiu):
-        s = self.llc.socket(nfc.llcp.DATA_LINK_CONNECTION)
-        self.llc.setsockopt(s, nfc.llcp.SO_RCVBUF, rwin)
-        self.llc.setsockopt(s, nfc.llcp.SO_RCVMIU, rmiu)
+        s = self.io.socket(nfc.llcp.DATA_LINK_CONNECTION)
+        self.io.setsockopt(s, nfc.llcp.SO_RCVBUF, rwin)
+        self.io.setsockopt(s, nfc.llcp.SO_RCVMIU, rmiu)
         if not self._bind(s, spec):
             return
-        self.llc.listen(s, 4)
+        self.io.listen(s, 4)
         self.socks[key] = s
 
     def op_accept(self, lkey, key, ssap, annc, rw):
@@ -448,7 +549,7 @@ class Sender(object):
         self.llc.dispatch(P.Connect(ls.addr, ssap, annc, rw))
         if not len(ls.recv_queue):
             return
-        s = self.llc.accept(ls)
+        s = self.io.accept(ls)
         self.socks[key] = s
         self.conn_miu[(s.peer, s.addr)] = annc
 
@@ -468,23 +569,23 @@ class Sender(object):
         self.llc.dispatch(P.decode(wire))
         if not len(ls.recv_queue):
             return
-        s = self.llc.accept(ls)
+        s = self.io.accept(ls)
         self.socks[key] = s
         self._learnt(s, v, 'CONNECT')
 
     def op_connect_start(self, key, addr, dest, rwin=None, rmiu=None):
         """llc.connect() in a thread; it queues CONNECT and waits for the answer"""
-        s = self.llc.socket(nfc.llcp.DATA_LINK_CONNECTION)
+        s = self.io.socket(nfc.llcp.DATA_LINK_CONNECTION)
         if rwin is not None:
-            self.llc.setsockopt(s, nfc.llcp.SO_RCVBUF, rwin)
+            self.io.setsockopt(s, nfc.llcp.SO_RCVBUF, rwin)
         if rmiu is not None:
-            self.llc.setsockopt(s, nfc.llcp.SO_RCVMIU, rmiu)
+            self.io.setsockopt(s, nfc.llcp.SO_RCVMIU, rmiu)
         if not self._bind(s, addr):
             return
 
         def run():
             try:
-                self.llc.connect(s, dest)
+                self.io.connect(s, dest)
             except nfc.llcp.Error:
                 pass
 
@@ -516,7 +617,7 @@ class Sender(object):
             return
         msg = payload(n, fill)
         before = a_sock(s)
-        r, v = self.api(self.llc.send, s, msg, DONTWAIT)
+        r, v = self.api(self.io.send, s, msg, DONTWAIT)
         exp = 'ok ' + a_sock(s) if r == 'ok' else 'err LlcpError:%d' % v
         self.sendlog.append(('send %s %s' % (hexs(msg), before), exp, n, r,
                              min(self.true_miu, self.conn_miu.get((s.peer, s.addr), 0))))
@@ -530,12 +631,12 @@ class Sender(object):
             self.llc.dispatch(P.Information(s.addr, s.peer, s.recv_cnt, s.send_ack, b'in'))
         for _ in range(j):
             if len(s.recv_queue) and s.state.ESTABLISHED:
-                self.llc.recv(s)
+                self.io.recv(s)
 
     def op_busy(self, key, flag):
         s = self.socks.get(key)
         if s is not None:
-            self.llc.setsockopt(s, nfc.llcp.SO_RCVBSY, flag)
+            self.io.setsockopt(s, nfc.llcp.SO_RCVBSY, flag)
 
     def op_badi(self, key):
         s = self.socks.get(key)
@@ -549,9 +650,9 @@ class Sender(object):
 
     def op_connectpdu(self, key, addr, dest, rmiu, rwin):
         """what DataLinkConnection.connect() does before it blocks: CONNECT PDU queued, state CONNECT"""
-        s = self.llc.socket(nfc.llcp.DATA_LINK_CONNECTION)
-        self.llc.setsockopt(s, nfc.llcp.SO_RCVBUF, rwin)
-        self.llc.setsockopt(s, nfc.llcp.SO_RCVMIU, rmiu)
+        s = self.io.socket(nfc.llcp.DATA_LINK_CONNECTION)
+        self.io.setsockopt(s, nfc.llcp.SO_RCVBUF, rwin)
+        self.io.setsockopt(s, nfc.llcp.SO_RCVMIU, rmiu)
         if not self._bind(s, addr):
             return
         if isinstance(dest, str):
@@ -632,16 +733,26 @@ def run_scenario(ck, sc, lines, expect, maxframes=8):
         del snd.conn_learnt[:]
 
     def flush_sends():
-        for line, exp, n, r, lim in snd.sendlog:
+        for line, exp, n, r, slim in snd.sendlog:
             if line is not None:
                 lines.append(line)
                 expect.append((exp, 'send', sc, None))
                 ck.count('send-' + ('accepted' if r == 'ok' else 'errno-' + exp.split(':')[-1]))
             # monitor: a payload above the link / connection MIU must not be queued (n = octets that would go out)
-            if r == 'ok' and n > lim:
+            if r == 'ok' and n > slim:
                 ck.violation('send-accepts-oversize', 'send()/sendto() queued a message of %s octets, the MIU of its receiver is %d'
-                             % (n if n < 10 ** 9 else 'unknown many', lim), {'scenario': sc, 'len': n, 'limit': lim})
+                             % (n if n < 10 ** 9 else 'unknown many', slim), {'scenario': sc, 'len': n, 'limit': slim})
         del snd.sendlog[:]
+        for what, option, value, outcome, tco in snd.optlog:
+            ck.count('sockopt-%s-%s:%s' % (what, option if option in range(1, 7) else 'unknown', outcome))
+            ck.case(('opt', what, option, value, outcome), True)
+            # monitor: no socket option may lift a connection's send MIU above what the peer announced for it
+            if isinstance(tco, T.DataLinkConnection) and tco.state.ESTABLISHED:
+                true = min(lim, snd.conn_miu.get((tco.peer, tco.addr), 0))
+                if tco.send_miu > true:
+                    ck.violation('sockopt-raises-send-miu', '%ssockopt(option %s, value %s) left the connection with send MIU %d, the '
+                                 'peer announced %d' % (what, option, value, tco.send_miu, true), {'scenario': sc})
+        del snd.optlog[:]
         for kind, r, v in snd.arglog:
             ck.count('arg-%s:%s' % (kind, 'accepted' if r == 'ok' else 'TypeError' if r == 'type' else 'errno-%d' % v))
             ck.case(('arg', kind, r, v, snd.true_miu), True)
@@ -923,6 +1034,12 @@ def gen_threaded(rng):
 
 
 CORPUS = [
+    # a sent bytearray grows before collect(): 100 octets handed over, 400 in the buffer (connection MIU 200, link MIU 1024)
+    dict(family='corpus', miu=1024, agf=False, script=[['dlc', 'c', 40, 16, 200, 4, 1], ['send_buf', 'c', 100, 16, 1],
+                                                       ['mutate', 'c', 'extend', 300]]),
+    # SO_SNDMIU on an established connection (connection MIU 200, link MIU 1024) through the wrapper
+    dict(family='corpus', miu=1024, agf=False, wrap=True, script=[['dlc', 'c', 40, 16, 200, 4, 1], ['setopt', 'c', 1, 1024],
+                                                                  ['send', 'c', 300, 1]]),
     # message arguments that are not octet strings: 100 16-bit items are 200 octets (MIU 128)
     dict(family='corpus', miu=128, agf=False, script=[['ldl', 'a', None], ['send_arg', 'a', 'mv-H', 100, 16, 1]]),
     dict(family='corpus', miu=128, agf=True, script=[['dlc', 'c', 40, 16, 128, 4, 1], ['send_arg', 'c', 'mv-I', 64, 16, 1],
@@ -1145,6 +1262,77 @@ def gen_api_args(rng, miu=None, kind=None):
     return dict(family='api-args', miu=miu, agf=rng.random() < 0.5, script=script)
 
 
+OPTIONS = [1, 2, 3, 4, 5, 6, 0, 7, 99, -1]      # SO_SNDMIU .. SO_RCVBSY and numbers that are no option
+
+
+def opt_values(rng, miu):
+    return [0, 1, miu - 1, miu, miu + 1, 2175, 65535, -1, rng.randrange(0, 4000)]
+
+
+def gen_sockopt(rng):
+    """wrapper API: established connections (connection MIU below the link MIU) and connection-less sockets; every
+    socket option with boundary values; then I / UI PDUs at and above the MIU of their receiver"""
+    miu = rng.choice([248, 300, 1024, 2175, rng.randrange(200, 2176)])
+    cm = rng.choice([128, 128, 200, miu - 1, rng.randrange(128, miu)])
+    how = rng.randrange(3)
+    if how == 0:
+        script = [['dlc', 'c', 40, 16, cm, 15, 2]]
+    elif how == 1:
+        script = [['listen', 'l', None, 2, 128], ['accept_raw', 'l', 'c', 9, cm - 128, 15]]
+    else:
+        script = [['connect_start', 'c', 33, 17], ['collect'], ['cc', 'c', cm - 128, 15]]
+    script += [['ldl', 'u', None]]
+    for _ in range(rng.randrange(2, 7)):
+        key = rng.choice('ccu')
+        opt = rng.choice(OPTIONS[:6] + OPTIONS)
+        if rng.random() < 0.25:
+            script.append(['getopt', key, opt])
+        else:
+            val = rng.choice(opt_values(rng, miu) + opt_values(rng, cm))
+            if opt == 6:
+                val = rng.choice([0, 1, val])
+            script.append(['setopt', key, opt, val])
+    if rng.random() < 0.3:
+        script.append(['setopt', 'c', 6, 0])
+    for n in (cm, cm + 1, miu, rng.randrange(0, cm + 1)):
+        script.append(['send', 'c', n, n & 255])
+    script += [['sendto', 'u', miu, 16, 1], ['sendto', 'u', miu + 1, 16, 2]]
+    return dict(family='sockopt', miu=miu, agf=rng.random() < 0.5, wrap=True, script=script)
+
+
+def sweep_sockopt(miu, cm, opt, val):
+    return dict(family='sweep-sockopt', miu=miu, agf=False, wrap=True,
+                script=[['dlc', 'c', 40, 16, cm, 15, 2], ['ldl', 'u', None], ['setopt', 'c', opt, val], ['getopt', 'c', opt],
+                        ['setopt', 'u', opt, val], ['send', 'c', cm, 1], ['send', 'c', cm + 1, 2], ['send', 'c', miu, 3],
+                        ['sendto', 'u', miu, 16, 4], ['sendto', 'u', miu + 1, 16, 5]])
+
+
+def gen_mutate(rng):
+    """bytearrays handed over with send()/sendto() are changed by the application before collect()"""
+    miu = rng.choice([248, 1024, 2175, rng.randrange(200, 2176)])
+    cm = rng.choice([128, 200, rng.randrange(128, miu)])
+    script = [['dlc', 'c', 40, 16, cm, 15, 2], ['ldl', 'u', None]]
+    n = rng.choice([cm, cm - 28, 100, rng.randrange(0, cm + 1)])
+    script += [['send_buf', 'c', max(0, n), 16, 1]]
+    if rng.random() < 0.5:
+        script += [['send_buf', 'c', rng.randrange(0, 20), 16, 2]]
+    m = rng.choice([miu, miu - 28, 10])
+    script += [['send_buf', 'u', max(0, m), 17, 3]]
+    how = rng.choice(['extend', 'extend', 'extend', 'truncate', 'overwrite'])
+    k = rng.choice([1, 300, cm, miu - cm, rng.randrange(0, miu)]) if how == 'extend' else rng.randrange(0, 40)
+    script += [['mutate', 'c', how, k]]
+    if rng.random() < 0.5:
+        script += [['mutate', 'u', how, rng.choice([1, k])]]
+    return dict(family='mutate-after-send', miu=miu, agf=rng.random() < 0.5, wrap=rng.random() < 0.5, script=script)
+
+
+def wrapped(rng, sc):
+    """a share of every family is driven through nfc.llcp.Socket wrapper objects"""
+    if 'wrap' not in sc and rng.random() < 0.4:
+        sc = dict(sc, wrap=True)
+    return sc
+
+
 def interleave(rng, sc):
     """now and then call collect() in the middle of the script"""
     if rng.random() < 0.3 and len(sc['script']) > 2:
@@ -1174,6 +1362,11 @@ def scenarios(ck):
             yield sweep_sec(miu, 4, 'IU'[(miu + spare) % 2], spare, 10 + miu % 5)
     for _ in range(300 if quick else 6000):
         yield interleave(rng, gen_sec(rng))
+    # every socket option (and numbers that are none) with every boundary value, through the wrapper
+    for opt in OPTIONS:
+        for miu, cm in (((1024, 200),) if quick else ((1024, 200), (248, 128), (2175, 2174))):
+            for val in [0, 1, cm - 1, cm, cm + 1, miu - 1, miu, miu + 1, 2175, 65535, -1]:
+                yield sweep_sockopt(miu, cm, opt, val)
     # every kind of message argument on every send path, at a few MIUs
     for kd in ARG_KINDS:
         for miu in ((128, 131, 248) if quick else (128, 129, 130, 131, 248, 1000, 2175)):
@@ -1183,11 +1376,11 @@ def scenarios(ck):
         yield conn_setup(rng, miu, ('cc', 'connect', 'cc-raw')[miu % 3], (0, 1, 2, 15, 0)[miu % 5], (248, 128)[miu % 2], miu % 4, miu % 7 != 0)
     n = 4000 if quick else 60000
     gens = [(gen_sdres, 5), (gen_sdreq, 4), (gen_ui_pair, 5), (gen_first_plus_ack, 6), (gen_budget_snl, 4), (gen_dlc, 8),
-            (gen_mix, 3), (gen_raw, 1), (gen_conn_setup, 4), (gen_api_args, 3)]
+            (gen_mix, 3), (gen_raw, 1), (gen_conn_setup, 4), (gen_api_args, 3), (gen_sockopt, 4), (gen_mutate, 3)]
     tot = sum(w for _, w in gens)
     for g, w in gens:
         for _ in range(n * w // tot):
-            yield secure(rng, interleave(rng, g(rng)))
+            yield wrapped(rng, secure(rng, interleave(rng, g(rng))))
     for _ in range(4 if quick else 40):
         yield gen_threaded(rng)
 
